@@ -299,6 +299,13 @@ func (w *world) checkResult(ev Event, call Event, r callResult) {
 	if got != ev.R {
 		w.driftf("%s(%s): spec predicts type id %d, real %d (%v)", call.M, termText(call.OT), ev.R, got, r.err)
 	}
+	// Oracle: whatever type object the context hands out is the registered
+	// (canonical) object for its id.
+	if r.typ != nil && r.err == nil && kindOf(r.typ) != "prim" {
+		if reg, err := w.ctx.LookupType(zed.TypeID(r.typ)); err != nil || reg != r.typ {
+			w.violate("unregistered-type-object:"+call.M, fmt.Sprintf("%s returns a type object (%s, id %d) that is not the context's type of that id (%v)", call.M, ordKey(u.describe(r.typ)), zed.TypeID(r.typ), err))
+		}
+	}
 	switch call.M {
 	case "tdef", "reset":
 		return
@@ -685,6 +692,14 @@ func (w *world) finalOracles(tvSeen map[string][]byte) {
 		dt, rest := third.DecodeTypeValue(zed.EncodeTypeValue(typ))
 		if rest == nil || normKey(u.describe(dt)) != nk {
 			w.violate("roundtrip:decode:"+kindOf(typ), fmt.Sprintf("decoding the type value of %s in a fresh context yields %s", ordKey(d), ordKey(u.describe(dt))))
+		}
+	}
+	// the last binding of every type name is a type of this context
+	for _, spec := range []string{"m", "n"} {
+		if d := w.ctx.LookupTypeDef(u.name(spec)); d != nil {
+			if reg, err := w.ctx.LookupType(zed.TypeID(d)); err != nil || reg != zed.Type(d) {
+				w.violate("unregistered-type-object:typedef", fmt.Sprintf("LookupTypeDef(%q) returns a type object (%s, id %d) that is not the context's type of that id (%v)", u.name(spec), ordKey(u.describe(d)), zed.TypeID(d), err))
+			}
 		}
 	}
 	// union order insensitivity, directly: listing the members of every
